@@ -27,12 +27,13 @@ pub enum Mode {
     Silent,
 }
 
-fn serve<S: Read + Write>(mut s: S, name: String, mode: Mode, contacts: Contacts) {
-    let idx = {
-        let mut c = contacts.lock().unwrap();
-        c.push(Contact { listener: name, bytes: vec![] });
-        c.len() - 1
-    };
+fn register(contacts: &Contacts, name: &str) -> usize {
+    let mut c = contacts.lock().unwrap();
+    c.push(Contact { listener: name.to_string(), bytes: vec![] });
+    c.len() - 1
+}
+
+fn serve<S: Read + Write>(mut s: S, idx: usize, mode: Mode, contacts: Contacts) {
     let mut all: Vec<u8> = vec![];
     let mut parsed = 0usize;
     let mut buf = [0u8; 4096];
@@ -65,7 +66,9 @@ fn serve<S: Read + Write>(mut s: S, name: String, mode: Mode, contacts: Contacts
     }
 }
 
-/// TCP listener on `addr` (port 0 = ephemeral); returns the bound port, or None if it cannot bind.
+/// TCP listener on `addr` (port 0 = ephemeral); returns the bound port, or None if it cannot
+/// bind. A connection is registered as a contact by the accept loop itself, in accept order,
+/// before its serving thread starts.
 pub fn tcp_listener(addr: &str, name: &str, mode: Mode, contacts: Contacts) -> Option<u16> {
     let l = std::net::TcpListener::bind(addr).ok()?;
     let port = l.local_addr().ok()?.port();
@@ -73,8 +76,9 @@ pub fn tcp_listener(addr: &str, name: &str, mode: Mode, contacts: Contacts) -> O
     std::thread::spawn(move || {
         for s in l.incoming().flatten() {
             let _ = s.set_read_timeout(Some(Duration::from_secs(20)));
-            let (n, c) = (name.clone(), contacts.clone());
-            std::thread::spawn(move || serve(s, n, mode, c));
+            let idx = register(&contacts, &name);
+            let c = contacts.clone();
+            std::thread::spawn(move || serve(s, idx, mode, c));
         }
     });
     Some(port)
@@ -90,17 +94,67 @@ pub fn unix_listener(path: &str, name: &str, mode: Mode, contacts: Contacts) -> 
     std::thread::spawn(move || {
         for s in l.incoming().flatten() {
             let _ = s.set_read_timeout(Some(Duration::from_secs(20)));
-            let (n, c) = (name.clone(), contacts.clone());
-            std::thread::spawn(move || serve(s, n, mode, c));
+            let idx = register(&contacts, &name);
+            let c = contacts.clone();
+            std::thread::spawn(move || serve(s, idx, mode, c));
         }
     });
     true
 }
 
-/// serve one pre-connected stream (the other end is handed to the client through std_stream)
+/// serve one pre-connected stream (the other end is handed to the client through std_stream);
+/// registered before this returns
 pub fn serve_stream<S: Read + Write + Send + 'static>(s: S, name: &str, mode: Mode, contacts: Contacts) {
-    let (n, c) = (name.to_string(), contacts);
-    std::thread::spawn(move || serve(s, n, mode, c));
+    let idx = register(&contacts, name);
+    std::thread::spawn(move || serve(s, idx, mode, contacts));
+}
+
+pub const FENCE: &[u8] = b"FENCE-not-ldap";
+
+#[derive(Clone, Debug)]
+pub enum FenceTarget {
+    Tcp(String),
+    Unix(String),
+}
+
+/// Wait until every connection made to the listed listeners so far has been registered: one
+/// marker connection per listener (registration is in accept order), recognisable by the bytes
+/// it sends; returns when all markers have been recorded.
+pub fn fence(targets: &[FenceTarget], contacts: &Contacts) {
+    let before = contacts.lock().unwrap().iter().filter(|c| c.bytes.starts_with(FENCE)).count();
+    let mut keep: Vec<Box<dyn std::any::Any>> = vec![];
+    let mut sent = 0usize;
+    for t in targets {
+        match t {
+            FenceTarget::Tcp(a) => {
+                if let Ok(mut s) = std::net::TcpStream::connect(a) {
+                    if s.write_all(FENCE).is_ok() {
+                        sent += 1;
+                    }
+                    keep.push(Box::new(s));
+                }
+            }
+            FenceTarget::Unix(p) => {
+                if let Ok(mut s) = std::os::unix::net::UnixStream::connect(p) {
+                    if s.write_all(FENCE).is_ok() {
+                        sent += 1;
+                    }
+                    keep.push(Box::new(s));
+                }
+            }
+        }
+    }
+    let t0 = std::time::Instant::now();
+    loop {
+        let now = contacts.lock().unwrap().iter().filter(|c| c.bytes.starts_with(FENCE)).count();
+        if now >= before + sent {
+            break;
+        }
+        if t0.elapsed() > Duration::from_secs(10) {
+            panic!("verif-machinery: fence connections were not registered within 10 s");
+        }
+        std::thread::sleep(Duration::from_micros(200));
+    }
 }
 
 /// Run `f` on a helper thread; None if it has not returned within `limit` (the thread is left behind).
